@@ -167,6 +167,10 @@ def run(tier='quick'):
     R6 = chk.rule('R6', 'the util helpers that lift a conversion over std::optional between nullable columns and snapshot fields yield a value exactly when given one (no stored value is read back as "not set")', floor=4)
     from .. import rowrules as _rr
     _rr.optional_lifts(prog, chk, R6)
+    R11 = chk.rule('R11', 'update() on a handle whose row no longer exists is rejected: every UPDATE of the Track row that '
+                          'update() reaches is followed, with no other statement between, by a test of rows_modified() whose '
+                          'zero case throws (or an existence test that throws precedes it)', floor=7)
+    missing_row_rejected(prog, cg, eff, chk, R11)
     return chk.finish('statement-level analysis of the 1.x storage layer and the 2.x track table; value-flow '
                       'interpretation (sa/valueflow.py) of snapshot(), update() and create_track() of both '
                       'generations with every repository callee inlined down to the SQL statements, once per '
@@ -260,6 +264,127 @@ def _range_worker(args):
 
 
 _LOSSY = {}
+
+
+def _throws(n):
+    return any(x.get('kind') == 'CXXThrowExpr' for x in walk(n))
+
+
+def _exclusive(order, a, b):
+    """a and b lie in different branches of one if statement."""
+    for n in order:
+        if n.get('kind') != 'IfStmt':
+            continue
+        br = [c for c in children(n)[1:]]
+        if len(br) < 2:
+            continue
+        ia = [i for i, c in enumerate(br) if any(x is a for x in walk(c))]
+        ib = [i for i, c in enumerate(br) if any(x is b for x in walk(c))]
+        if ia and ib and ia[0] != ib[0]:
+            return True
+    return False
+
+
+def _rows_test_after(f, eff, site):
+    """An if statement of f, sequenced after the statement site and before any other statement site, that tests
+    rows_modified() and throws in the zero case (directly, or by returning early in the other case with a throw
+    following)."""
+    order = list(walk(f.body))
+    pos = {id(n): i for i, n in enumerate(order)}
+    at = pos.get(id(site.node))
+    if at is None:
+        return None
+    inside = set(id(x) for x in walk(site.node))
+    later_sites = sorted(pos[id(s.node)] for s in eff.sites(f) if id(s.node) in pos and pos[id(s.node)] > at
+                         and id(s.node) not in inside and not _exclusive(order, site.node, s.node))
+    limit = later_sites[0] if later_sites else len(order)
+    for i in range(at + 1, limit):
+        n = order[i]
+        if n.get('kind') != 'IfStmt' or id(n) in inside:
+            continue
+        if any(id(site.node) == id(x) for x in walk(n)):
+            continue
+        c = children(n)
+        names = [strip(children(x)[0]).get('name') for x in walk(c[0]) if x.get('kind') == 'CXXMemberCallExpr']
+        if 'rows_modified' not in names:
+            continue
+        if _throws(c[1]):
+            return n
+        if any(x.get('kind') == 'ReturnStmt' for x in walk(c[1])):
+            for par in order:
+                ch = children(par)
+                if n in ch and any(_throws(a) for a in ch[ch.index(n) + 1:]):
+                    return n
+    return None
+
+
+def missing_row_rejected(prog, cg, eff, chk, rid):
+    for gen in ('v1', 'v2'):
+        root = prog.func(fm.GEN[gen]['cls'] + '::update')
+        reach = cg.reachable([root], stop=lambda f: not prog.in_repo(f.file))
+        n = 0
+        for key, (f, parent, callnode) in sorted(reach.items(), key=lambda kv: (kv[1][0].file, kv[1][0].line)):
+            if f.body is None or f.is_pattern:
+                continue
+            for s in eff.sites(f):
+                st = s.stored_in
+                if st is None or st.kind != 'update' or (st.table or '').lower() != 'track':
+                    continue
+                n += 1
+                chk.analysed(f)
+                inst = '%s: %s reached from update()' % (gen, _short(f.qualname))
+                t = _rows_test_after(f, eff, s)
+                if t is not None:
+                    chk.ok(rid, inst + ': rows_modified() tested at %s' % locstr(t), locstr(s.node))
+                    continue
+                # existence test before the statement: a dominating earlier call in update() itself to a function
+                # that throws when the row is absent
+                pre = _existence_test_before(prog, cg, root, f, reach, key)
+                if pre:
+                    chk.ok(rid, inst + ': ' + pre, locstr(s.node))
+                    continue
+                chk.violation(rid, '%s|%s|update of a missing row accepted' % (gen, _short(f.qualname)), locstr(s.node),
+                              '%s: UPDATE Track ... WHERE id = ? at %s is not followed by a rows_modified() test that '
+                              'throws, and nothing before it establishes that the row exists: update() on a removed '
+                              'track returns normally although nothing was written (the single-column setters of the '
+                              'same table reject it)' % (inst, locstr(s.node)))
+        if n == 0:
+            raise AnalysisBroken('R11: %s update() reaches no UPDATE Track statement' % gen)
+
+
+def _existence_test_before(prog, cg, root, f, reach, key):
+    """root calls, before the call that leads to f, a repository function that throws track_deleted / a row-id
+    error under a condition (an existence probe)."""
+    # the call node in root on the path to f
+    k = key
+    first = None
+    while k is not None:
+        g, parent, node = reach[k]
+        if parent == root.key:
+            first = node
+        k = parent
+    if f.key == root.key:
+        return None
+    if first is None:
+        return None
+    order = list(walk(root.body))
+    pos = {id(n): i for i, n in enumerate(order)}
+    at = pos.get(id(first))
+    if at is None:
+        return None
+    for e in cg.edges(root):
+        if id(e.node) not in pos or pos[id(e.node)] >= at:
+            continue
+        for t in e.targets:
+            if t.body is None or not prog.in_repo(t.file):
+                continue
+            for n in walk(t.body):
+                if n.get('kind') == 'IfStmt' and _throws(children(n)[1]):
+                    thrown = [x.get('type') or '' for y in walk(children(n)[1]) if y.get('kind') == 'CXXThrowExpr'
+                              for x in children(y)]
+                    if any('track_deleted' in ty or 'row_id_error' in ty for ty in thrown):
+                        return 'existence probe %s precedes it' % _short(t.qualname)
+    return None
 
 
 def no_clobber(prog, chk, rid, min_instances=1):
